@@ -28,6 +28,9 @@ THEOREMS = [
     'Nb.C10.second_run_only_unfixable', 'Nb.C10.second_run_offset_bitpix', 'Nb.C10.fix_preserves_defined',
     'Nb.C10.checkFixBytes_parse', 'Nb.C10.checkFixBytes_idempotent', 'Nb.C10.checkFixBytes_noop',
     'Nb.C10.checkFixBytes_untouched', 'Nb.C10.checkFixBytes_generated',
+    'Nb.C10.wrapCheckFix_idempotent', 'Nb.C10.history_stable', 'Nb.C10.wrapCheckFix_second_run',
+    'Nb.C10.wrapCheckFix_clean', 'Nb.C10.wrapCheckFix_level_monotone', 'Nb.C10.ctorChecked_fixed_point',
+    'Nb.C10.second_run_levels_le', 'Nb.C10.logRaise_spec', 'Nb.C10.check_fix_failfast_counterexample',
     'Nb.C10.from_header_preserves', 'Nb.C10.from_header_fields_castable',
     'Nb.C10.from_header_preserves_zooms', 'Nb.C10.from_header_pixdim_beyond_ndim_counterexample',
     'Nb.C10.layouts_wf', 'Nb.C10.layouts_declared_sizes', 'Nb.C10.layouts_names_distinct',
@@ -46,6 +49,13 @@ ASSUMPTIONS = [
     'between CF and the header bytes is proved (checkFixBytes_parse/_idempotent/_noop/_untouched, generic over '
     'compat class/layout pairs, decided for every generated class) and checkFixBytes is additionally compared byte '
     'for byte with BatteryRunner.check_fix on every chk case',
+    'the PUBLIC entry point WrapStruct.check_fix(logger, error_level) is modelled as wrapCheckFix = checkFixBytes '
+    'followed by the log/raise loop logRaise (Report.log_raise: log, then raise HeaderDataError iff problem_level '
+    'and problem_level >= error_level; error_level None = imageglobals.error_level), histories of calls as '
+    'runHistory, Klass(bytes, check=True) as ctorChecked, diagnose_binaryblock as diagnose; compared on every pfix '
+    'case (raised battery index, logged reports, bytes after EVERY call incl. the ones that raised, check_only '
+    'afterwards, checking constructor, diagnose tokens); the logging module itself is not modelled (a recording '
+    'logger object is passed / installed as imageglobals.logger)',
     'floats are raw bit patterns; the checks use only sign/zero/NaN classes, abs (clears the sign bit, also of '
     'NaNs), the constant 1.0 and the exact dyadic value of vox_offset (FloatFmt.decode, validated against NumPy '
     'on the fdec stream); IEEE arithmetic itself is NumPy',
@@ -70,7 +80,11 @@ RULE = ('every endianness argument handed to the API (Klass(endianness=), Klass(
         'intent, dim_info, offset) with arbitrary bytes in free fields x {<,>} x 9 header classes, parsed with '
         'explicit and with guessed endianness; raw = arbitrary byte strings; defects = every subset (size<=3 quick, '
         '<=4 thorough) of the seeded defects applicable to the class x {<,>}; chkrand = random bit patterns '
-        '(NaN, +-inf, +-0, denormals, extremes) in the checked fields; fromhdr = conversions between all '
+        '(NaN, +-inf, +-0, denormals, extremes) in the checked fields; pfix-* = the public hdr.check_fix called 2-3 times '
+        'in sequence on one object with error levels from {-5,0,1,5,10,11,20,21,25,30,31,35,36,40,41,45,46,50,1000} or '
+        'None (imageglobals.error_level set through imageglobals.ErrorLevel to a drawn value), logger passed or '
+        'installed globally, on every defect subset / chkrand / setter-built header, plus pfix-levels = a header '
+        'with ALL applicable defects swept over every level; the header is inspected after calls that RAISED; fromhdr = conversions between all '
         'Analyze-family classes; dt/codec/fdec = table and codec spec validation. A case is non-trivial when the '
         'header differs from the class default; distinct by (class, endianness, op, sha1 of bytes).')
 
@@ -444,8 +458,29 @@ def mk_fromhdr(src, dst, e, bs, check):
     return Case(line, data, ("fromhdr", src, dst, e, check, _sha(bs)), 'fromhdr')
 
 
+def _lv(l):
+    return 'N' if l is None else str(int(l))
+
+
+def mk_pfix(cls, e, glob, lvls, bs, stream, valid=False, lg='arg', nontrivial=True):
+    """The public `hdr.check_fix(logger, error_level=l)` for each l in `lvls` in sequence on ONE object
+    (None = take imageglobals.error_level, which is set to `glob`); `lg`: 'arg' = a recording logger is
+    passed, 'glob' = logger=None and the recorder is installed as imageglobals.logger."""
+    hx = bs.hex() or '-'
+    lvls = [None if l is None else int(l) for l in lvls]
+    line = f'C10 pfix {cls} {e} {int(glob)} {",".join(_lv(l) for l in lvls)} {hx}'
+    data = {'op': 'pfix', 'cls': cls, 'e': e, 'glob': int(glob), 'lvls': lvls, 'lg': lg, 'hex': hx,
+            'stream': stream, 'valid': valid}
+    key = ('pfix', cls, e, int(glob), tuple(lvls), _sha(bs)) if nontrivial else None
+    return Case(line, data, key, stream)
+
+
 def case_from_data(d):
     op = d['op']
+    if op == 'pfix':
+        bs = b'' if d['hex'] == '-' else bytes.fromhex(d['hex'])
+        return mk_pfix(d['cls'], d['e'], d['glob'], d['lvls'], bs, d.get('stream', 'corpus'), d.get('valid', False),
+                       d.get('lg', 'arg'))
     if op in ('hdr', 'chk'):
         bs = b'' if d['hex'] == '-' else bytes.fromhex(d['hex'])
         return mk_case(op, d['cls'], d['e'], bs, d.get('stream', 'corpus'), d.get('valid', False), d.get('etrue'),
@@ -529,6 +564,97 @@ def impl_chk(case):
             f'ro={canon_reports(ro)}')
 
 
+class _Rec:
+    """Recording logger: what `Report.log_raise` hands to `logger.log`."""
+
+    def __init__(self):
+        self.recs = []
+
+    def log(self, level, msg, *a, **k):
+        self.recs.append((int(level), str(msg)))
+
+
+def logged_token(msg):
+    """(token, fix flag) of a logged `report.message` = problem_msg [+ '; ' + fix_msg]."""
+    if msg == '':
+        return '-', 0
+    for pat, tok in MSG_TOKENS[1:]:
+        core = pat[1:-1]
+        if re.fullmatch(core, msg, flags=re.S):
+            return tok, 0
+        if re.fullmatch(core + '; .+', msg, flags=re.S):
+            return tok, 1
+    return 'other(' + msg.replace(' ', '_')[:60] + ')', 0
+
+
+def canon_logged(recs):
+    return '[' + ','.join('%d:%s:%d' % ((lvl,) + logged_token(msg)) for lvl, msg in recs) + ']'
+
+
+def impl_pfix(case):
+    d = case.data
+    cls, e = d['cls'], d['e']
+    K = classes()[cls]
+    bs = b'' if d['hex'] == '-' else bytes.fromhex(d['hex'])
+    from nibabel.wrapstruct import WrapStructError
+    from nibabel.spatialimages import HeaderDataError
+    from nibabel import imageglobals as ig
+    BatteryRunner = nb()['batteryrunners'].BatteryRunner
+    try:
+        h = make_hdr(cls, e, bs)
+    except WrapStructError:
+        return 'ERR:WrapStructError'
+    except KeyError:
+        return 'ERR:KeyError'
+    br = BatteryRunner(K._get_checks())
+    bb0 = h.binaryblock
+    steps = []
+    ex = {'bb0': bb0, 'K': K, 'steps': steps}
+    case.extra = ex
+    old_logger = ig.logger
+    try:
+        with ig.ErrorLevel(d['glob']):
+            for lvl in d['lvls']:
+                pre = [(int(r.problem_level), r.problem_msg) for r in br.check_only(h)]
+                rec = _Rec()
+                raised = None
+                try:
+                    if d.get('lg') == 'glob':
+                        ig.logger = rec
+                        h.check_fix(error_level=lvl)
+                    else:
+                        h.check_fix(logger=rec, error_level=lvl)
+                except HeaderDataError as exn:
+                    raised = exn
+                finally:
+                    ig.logger = old_logger
+                steps.append({'pre': pre, 'recs': rec.recs, 'raised': raised, 'bb': h.binaryblock,
+                              'eff': d['glob'] if lvl is None else lvl, 'lvl': lvl})
+            ro = br.check_only(h)
+            ex['ro'] = ro
+            rec = _Rec()
+            ig.logger = rec
+            try:
+                hc = K(bs, check=True) if cls == 'mgh' else K(bs, endianness=e, check=True)
+                ex['ctor'] = hc.binaryblock
+                ctor = 'ok:%d' % int(hc.binaryblock == steps[0]['bb'])
+            except HeaderDataError:
+                ex['ctor'] = None
+                ctor = 'ERR:%d' % (len(rec.recs) - 1)
+            finally:
+                ig.logger = old_logger
+            diag = K.diagnose_binaryblock(bs) if cls == 'mgh' else K.diagnose_binaryblock(bs, e)
+    except OverflowError:
+        ig.logger = old_logger
+        return 'ERR:OverflowError'
+    ex['diag'] = [ln for ln in diag.split('\n') if ln]
+    bb1 = steps[0]['bb']
+    ss = ';'.join(('R%d' % (len(st['recs']) - 1) if st['raised'] is not None else 'ok') + '/' + canon_logged(st['recs']) +
+                  '/%d' % int(st['bb'] == bb1) for st in steps)
+    return (f'bb1={bb1.hex()} steps={ss} ro={canon_reports(ro)} ctor={ctor} '
+            f'diag=[{",".join(logged_token(ln)[0] for ln in ex["diag"])}]')
+
+
 def impl_simple(case):
     d = case.data
     op, a = d['op'], d['args']
@@ -579,6 +705,8 @@ def impl(case):
         return impl_hdr(case)
     if op == 'chk':
         return impl_chk(case)
+    if op == 'pfix':
+        return impl_pfix(case)
     if op == 'fromhdr':
         return impl_fromhdr(case)
     return impl_simple(case)
@@ -776,6 +904,7 @@ F64_POOL = [0, 1 << 63, 0x3FF0000000000000, 0xBFF0000000000000, 0x7FF00000000000
             0x7FF8000000000000, 0xFFF8000000000001, 0x7FF0000000000001, 1, (1 << 63) + 1, 0x000FFFFFFFFFFFFF,
             0x0010000000000000, 0x4076000000000000, 0x4081000000000000, 0x4030000000000000, 0x4000000000000000,
             0xC000000000000000, 0x3FF8000000000000, 0x7FEFFFFFFFFFFFFF, 0xFFEFFFFFFFFFFFFF]
+LEVEL_POOL = [-5, 0, 1, 5, 10, 11, 20, 21, 25, 30, 31, 35, 36, 40, 41, 45, 46, 50, 1000]
 I64_POOL = [0, 1, 15, 16, 17, 352, 543, 544, 545, 560, 4096, 2 ** 63 - 1, 2 ** 64 - 1, 2 ** 64 - 16, 2 ** 63, 2 ** 64 - 544]
 
 
@@ -890,6 +1019,18 @@ def cases(rng, tier):
                 for bad in BAD_SPELLINGS:
                     out.append(mk_case('hdr', cls, bad, bb, 'aliases', to=None))
                     out.append(mk_case('chk', cls, bad, bb, 'aliases-chk'))
+    def P(cls, e, bs, stream, valid=False, nontrivial=True, first=None):
+        """A history of 2-3 public check_fix calls on one header at drawn error levels (None = the global level,
+        itself drawn), the recording logger passed or installed globally."""
+        if e in ('<', '>') and cls != 'mgh':
+            e = spell(rng, e)
+        glob = 40 if rng.random() < 0.4 else rng.choice(LEVEL_POOL)
+        n = rng.choice([2, 2, 3])
+        lvls = [None if rng.random() < 0.3 else rng.choice(LEVEL_POOL) for _ in range(n)]
+        if first is not None:
+            lvls[0] = first
+        return mk_pfix(cls, e, glob, lvls, bs, stream, valid=valid, lg=rng.choice(['arg', 'glob']), nontrivial=nontrivial)
+
     n_set = {'quick': 14, 'thorough': 300, 'search': 40}[tier]
     n_raw = {'quick': 6, 'thorough': 150, 'search': 20}[tier]
     n_rand = {'quick': 40, 'thorough': 2500, 'search': 120}[tier]
@@ -930,6 +1071,7 @@ def cases(rng, tier):
                 out.append(C('hdr', cls, ee, bb, 'setters', valid=True, etrue=ee, nontrivial=i > 0))
                 out.append(C('hdr', cls, '?', bb, 'setters-guess', valid=True, etrue=ee, nontrivial=i > 0))
                 out.append(C('chk', cls, ee, bb, 'setters-chk', valid=True, etrue=ee, nontrivial=i > 0))
+                out.append(P(cls, ee, bb, 'pfix-valid', valid=True, nontrivial=i > 0))
                 if i % 4 == 0 and cls in ANALYZE_FAMILY:
                     for dst in ANALYZE_FAMILY:
                         out.append(mk_fromhdr(cls, dst, e, bb, check=False))
@@ -990,6 +1132,7 @@ def cases(rng, tier):
                         for dn in order:
                             D[dn](rng, h)
                         out.append(C('chk', cls, e, h.binaryblock, 'defects', nontrivial=bool(sub)))
+                        out.append(P(cls, e, h.binaryblock, 'pfix-defects', nontrivial=bool(sub)))
                         if rep == 0 and r <= 1:
                             out.append(C('hdr', cls, e, h.binaryblock, 'defects-hdr', nontrivial=bool(sub)))
     # ---- random bit patterns in the checked fields
@@ -1018,6 +1161,23 @@ def cases(rng, tier):
                     if rng.random() < 0.6:
                         put_item(b, lay, e, fn, k, rand_pattern(rng, isz, kind))
             out.append(C('chk', cls, e, bytes(b), 'chkrand'))
+            out.append(P(cls, e, bytes(b), 'pfix-rand'))
+    # ---- every error level against headers carrying ALL (and all-but-one of) the applicable defects
+    for cls in K:
+        D = defect_table(cls, K[cls])
+        names = sorted(D)
+        if not names:
+            continue
+        for e in (('>',) if cls == 'mgh' else ('<', '>')):
+            subsets = [names] + ([[n for n in names if n != drop] for drop in names] if tier != 'quick' and len(names) > 1 else [])
+            for sub in subsets:
+                for lvl in LEVEL_POOL + [None]:
+                    h = build_header(rng, cls, e)
+                    order = list(sub)
+                    rng.shuffle(order)
+                    for dn in order:
+                        D[dn](rng, h)
+                    out.append(P(cls, e, h.binaryblock, 'pfix-levels', first=lvl))
     return out
 
 
@@ -1214,6 +1374,83 @@ def oracle_chk(case, out):
     return None
 
 
+def _first_raising(pre, eff):
+    return next((i for i, (lvl, _) in enumerate(pre) if lvl and lvl >= eff), None)
+
+
+def oracle_pfix(case, out):
+    """The repair clauses of the property on the PUBLIC entry point, whatever the error level and whether or not
+    a call raised: every repair is in the header after the first call, later calls never change it, a clean
+    header is never touched and never raises, the call raises exactly when a report reaches the level."""
+    d = case.data
+    cls, e = d['cls'], d['e']
+    K = classes()[cls]
+    bs = b'' if d['hex'] == '-' else bytes.fromhex(d['hex'])
+    if out.startswith('ERR:WrapStructError'):
+        return None if len(bs) != K.template_dtype.itemsize else f'{cls}: right-sized block rejected'
+    if out.startswith('ERR:KeyError'):
+        return None if resolve(e) is None else f'{cls}: endianness spelling {e!r} rejected'
+    if out.startswith('ERR:OverflowError'):
+        h = make_hdr(cls, e, bs)
+        v = float(h['vox_offset']) if 'vox_offset' in K.template_dtype.names else 0
+        return None if v == float('-inf') else f'{cls}: check_fix raised OverflowError on vox_offset {v}'
+    if out.startswith('ERR'):
+        return f'{cls}: running the checks raised {out}'
+    ex = case.extra
+    names = [f.__name__ for f in K._get_checks()]
+    steps = ex['steps']
+    bb1 = steps[0]['bb']
+    how = lambda st: 'raised' if st['raised'] is not None else 'completed'
+    for i, st in enumerate(steps):
+        pre, eff, recs = st['pre'], st['eff'], st['recs']
+        tag = f'{cls} endian {e}: check_fix #{i + 1}(error_level={st["lvl"]}' + (f' -> global {eff}' if st['lvl'] is None else '') + ')'
+        first = _first_raising(pre, eff)
+        if (st['raised'] is not None) != (first is not None):
+            return (f'{tag} {how(st)} although the report levels of the header are {[l for l, _ in pre]} '
+                    f'(raise expected: {first is not None})')
+        want_n = len(names) if first is None else first + 1
+        if len(recs) != want_n:
+            return f'{tag} logged {len(recs)} reports, expected {want_n} (levels {[l for l, _ in pre]}, first to raise: {first})'
+        if [l for l, _ in recs] != [l for l, _ in pre[:want_n]]:
+            return f'{tag} logged levels {[l for l, _ in recs]}, check_only reports {[l for l, _ in pre[:want_n]]}'
+        if first is not None and str(st['raised']) != pre[first][1]:
+            return f'{tag} raised {str(st["raised"])!r}, the first report at the level says {pre[first][1]!r}'
+        if i == 0:
+            if not any(l for l, _ in pre) and st['bb'] != ex['bb0']:
+                return f'{tag} altered a header that check_only finds clean'
+            if d.get('valid'):
+                bad = [(n, l) for n, (l, _) in zip(names, pre) if l and n != '_chk_origin']
+                if bad or st['bb'] != ex['bb0']:
+                    return f'{tag}: a header built only through the public setters is reported/changed: {bad}'
+        elif st['bb'] != bb1:
+            return (f'{tag} is not idempotent: it changed the header again after a first check_fix(error_level='
+                    f'{steps[0]["lvl"]}) that {how(steps[0])}')
+    for nm, r in zip(names, ex['ro']):
+        if r.problem_level and nm not in UNFIXABLE_CHECKS:
+            return (f'{cls} endian {e}: {nm} still reports level {r.problem_level} ({r.problem_msg}) after '
+                    f'check_fix(error_level={steps[0]["lvl"]}) that {how(steps[0])}')
+    # the error level decides when the call raises, never what is repaired
+    hp = make_hdr(cls, e, bs)
+    try:
+        hp.check_fix(logger=_quiet, error_level=1000)
+    except Exception as exn:
+        return f'{cls}: hdr.check_fix(error_level=1000) raised {type(exn).__name__}'
+    if hp.binaryblock != bb1:
+        return (f'{cls} endian {e}: the header left by check_fix(error_level={steps[0]["lvl"]}, effective {steps[0]["eff"]}) that '
+                f'{how(steps[0])} differs from the one left by check_fix(error_level=1000): the repair depends on the error level')
+    # checking constructor
+    first = _first_raising(steps[0]['pre'], d['glob'])
+    if (ex['ctor'] is None) != (first is not None):
+        return (f'{cls}: {K.__name__}(bytes, check=True) with imageglobals.error_level={d["glob"]} '
+                f'{"raised" if ex["ctor"] is None else "succeeded"}; report levels {[l for l, _ in steps[0]["pre"]]}')
+    if ex['ctor'] is not None and ex['ctor'] != bb1:
+        return f'{cls}: {K.__name__}(bytes, check=True) gives a different header than check_fix on the unchecked header'
+    want = [m for l, m in steps[0]['pre'] if m]
+    if ex['diag'] != want:
+        return f'{cls}: diagnose_binaryblock reports {ex["diag"]}, check_only {want}'
+    return None
+
+
 def _cast_equal(a, b_dtype, b):
     with np.errstate(all='ignore'):
         a2 = np.asarray(a).astype(b_dtype.base if hasattr(b_dtype, 'base') else b_dtype)
@@ -1286,6 +1523,8 @@ def oracle(case, out):
         return oracle_hdr(case, out)
     if op == 'chk':
         return oracle_chk(case, out)
+    if op == 'pfix':
+        return oracle_pfix(case, out)
     if op == 'fromhdr':
         return oracle_fromhdr(case, out)
     if op == 'dt':
@@ -1324,6 +1563,14 @@ def signature(case, what):
             if k in w:
                 return f'chk:{d["cls"]}:{t}'
         return f'chk:{d["cls"]}:other'
+    if op == 'pfix':
+        for k, t in (('idempotent', 'not-idempotent'), ('depends on the error level', 'level-dependent-repair'),
+                     ('altered', 'noop'), ('still reports', 'not-repaired'), ('public setters', 'valid-flagged'),
+                     ('check=true', 'ctor-check'), ('diagnose_binaryblock', 'diagnose'), ('logged', 'log'),
+                     ('although the report levels', 'raise-level'), ('raised', 'raise')):
+            if k in w:
+                return f'pfix:{d["cls"]}:{t}'
+        return f'pfix:{d["cls"]}:other'
     if op == 'fromhdr':
         if 'field pixdim' in what:
             try:
@@ -1343,7 +1590,7 @@ def signature(case, what):
 
 def shrink_candidates(case):
     d = case.data
-    if d['op'] not in ('hdr', 'chk') or d['hex'] == '-':
+    if d['op'] not in ('hdr', 'chk', 'pfix') or d['hex'] == '-':
         return
     K = classes()[d['cls']]
     bs = bytes.fromhex(d['hex'])
@@ -1353,6 +1600,19 @@ def shrink_candidates(case):
     try:
         base = K(endianness=e).binaryblock if d['cls'] != 'mgh' else K().binaryblock
     except Exception:
+        return
+    if d['op'] == 'pfix':
+        mk = lambda b2, lvls=None: mk_pfix(d['cls'], d['e'], d['glob'], d['lvls'] if lvls is None else lvls, b2,
+                                           d.get('stream', 'shrunk'), d.get('valid', False), d.get('lg', 'arg'))
+        if len(d['lvls']) > 2:
+            yield mk(bs, d['lvls'][:2])
+            yield mk(bs, d['lvls'][:1] + d['lvls'][2:])
+        if d['glob'] != 40 and None not in d['lvls']:
+            yield mk_pfix(d['cls'], d['e'], 40, d['lvls'], bs, d.get('stream', 'shrunk'), d.get('valid', False), 'arg')
+        for n, off, isz, cnt, kind in layout_of(K):
+            ln = isz * cnt
+            if bs[off:off + ln] != base[off:off + ln]:
+                yield mk(bs[:off] + base[off:off + ln] + bs[off + ln:])
         return
     # reset one field at a time to the class default
     for n, off, isz, cnt, kind in layout_of(K):
